@@ -455,8 +455,18 @@ pub async fn exec(sc: &Script) -> Outcome {
                             _ => "transceivers" };
                         let groups: Vec<&str> = ["state", "local", "remote", "transceivers", "senders-receivers", "conn"].into_iter()
                             .filter(|g| changed.iter().any(|f| group(f) == *g)).collect();
-                        fails.push((format!("atom:{cls}:{st}:{}:{site}:{}", mode_ch(&sc.mode), groups.join("+")),
-                            format!("call #{i} `{}` returned Err({e}) but {} changed", call_text(call), changed.join(", "))));
+                        // what each failing site is KNOWN to leave behind (an upper bound: which of these groups actually differ
+                        // depends on the history). Anything outside the bound — in particular the signaling state and the local
+                        // description, or more than the connection counters for the SRTP site — is a new defect.
+                        let allowed: &[&str] = match site {
+                            "rtp-media-transport-bind" => &["remote", "transceivers", "senders-receivers", "conn"],
+                            "srtp-start-direct-no-candidate" => &["conn"],
+                            "offer-socket-bind" => &["transceivers", "conn"],
+                            _ => &[] };
+                        let extra: Vec<&str> = groups.iter().copied().filter(|g| !allowed.contains(g)).collect();
+                        let sig = if extra.is_empty() { format!("atom:{cls}:{st}:{}:{site}", mode_ch(&sc.mode)) }
+                                  else { format!("atom:{cls}:{st}:{}:{site}:unexpected:{}", mode_ch(&sc.mode), extra.join("+")) };
+                        fails.push((sig, format!("call #{i} `{}` returned Err({e}) but {} changed", call_text(call), changed.join(", "))));
                     }
                 } else {
                     for f in changed {
@@ -691,7 +701,7 @@ pub fn run(args: &Args) {
     run.count_n("bind_fails_exhaustiveB_len2_r", alb.len().pow(2) as u64);
     for sc in ["r!/a0,v0/srP1o;ca", "r!/a0/slP0o;srA0a", "r!/a0/slP0o;srA0p;srA0a", "r!//srP12o;ca", "r!/a0/srP13o", "r!/a0/srP3o;ca",
                "r!/a0,a0/srP9o;ca", "r!/v0/srP4o;ca", "r!/a0/slP0o;srA0a;srP11o", "s!/a0/co", "s!/a0/srP0o;ca", "s!/a0/slP0o;srA0a",
-               "s!/a0t,v2/co", "s!/a0t,v2/srP1o", "w!/a0/co;slLo;srA0a", "w!/a0/srP0o;ca;slLa"] {
+               "s!/a0t,v2/co", "s!/a0t,v2/srP1o", "s!/a0/slP0o;srA0p", "w!/a0/co;slLo;srA0a", "w!/a0/srP0o;ca;slLa"] {
         emit(&mut run, &mut rt, &parse_script(sc));
         run.count("bind_fails_directed");
     }
